@@ -59,7 +59,7 @@ MANIFEST = {
 EXPLANATION = MANIFEST["level_text"]
 TRUSTED = [
     "pyvc VC generator; its sequential interpretation of async def / await / async for / async with / @asynccontextmanager generators (one coroutine, no interleaving)",
-    "z3 5.1.0 / cvc5 1.0.3",
+    "z3 5.1.0 / cvc5 1.4.0",
     "aiohttp ClientSession.head/get issue exactly one HTTP request to the given URL when allow_redirects=False; StreamReader.read(n) returns at most n bytes (b'' only at EOF); StreamReader.iter_chunked(n) yields chunks of 1..n bytes",
     "urllib.parse.urlparse/urljoin/urlunparse/parse_qsl are pure functions; urlunparse((s, n, p, '', '', '')) is built from s, n, p only; ParseResult.port/hostname raise at most ValueError",
     "lemma (hand proof in the O4 section, sampled natively by the bounded stand-in): for ints 0 <= a < 2**53 and b >= 1, math.ceil(a / b) == -(-a // b)",
